@@ -357,9 +357,65 @@ MM = [2, 0]
 MM1 = [2, 1]
 
 
+def rtox_in_response_chain(sx, phase):
+    """the nfc.dep Initiator against a scripted target (built from nfc.dep's
+    own DEP_RES class) that asks for a response timeout extension (RTOX,
+    symbolic 1..59) either before its reply (phase 'reply') or in the middle
+    of a chained reply, as the answer to the initiator's ACK (phase 'chain';
+    the library's own Target never does that, other devices may).  No frame is
+    lost or damaged.  The initiator confirms the value and then waits for it:
+    the time it gives the driver for the next answer is RTOX x RWT (bounded
+    by what is left of the exchange time-out), and the payload arrives."""
+    R = nfc.dep.DEP_RES
+    tox = sx.int("rtox", 1, 59)
+    rwt = 0.01
+    chunks = [b"\x01\x02\x03", b"\x04\x05"] if phase == "chain" else [b"\x0A\x0B\x0C"]
+    calls = []
+
+    def res(fmt, pni, data=None):
+        x = R(R.PFB(fmt, False, False, pni), None, None, data).encode()
+        return bytearray([len(x) + 1]) + bytearray(x)
+
+    class Clf(object):
+        def exchange(self, data, timeout):
+            n = len(calls)
+            calls.append((bytearray(data), timeout))
+            if phase == "chain":
+                script = [lambda: res(R.MoreInformation, 0, bytearray(chunks[0])),
+                          lambda: res(R.TimeoutExtension, 0, sx.mkbytes([tox], True)),
+                          lambda: res(R.LastInformation, 1, bytearray(chunks[1]))]
+            else:
+                script = [lambda: res(R.TimeoutExtension, 0, sx.mkbytes([tox], True)),
+                          lambda: res(R.LastInformation, 0, bytearray(chunks[0]))]
+            if n >= len(script):
+                raise nfc.clf.TimeoutError("script over")
+            return script[n]()
+
+    d = nfc.dep.Initiator(Clf())
+    d.target = nfc.clf.RemoteTarget("212F")
+    d.miu, d.did, d.nad, d.rwt, d.pni = 64, None, None, rwt, 0
+    try:
+        got = d.exchange(b"\x55", 5.0)
+    except nfc.clf.CommunicationError as e:
+        sx.check(False, "rtox-in-%s:fault-free-exchange-failed:%s" % (phase, type(e).__name__))
+    sx.check(bytes(got) == b"".join(chunks), "rtox-in-%s:payload-not-delivered" % phase)
+    k = 1 if phase == "chain" else 0        # index of the RTOX request in the script
+    sx.check(len(calls) == k + 2, "rtox-in-%s:number-of-requests" % phase)
+    cmd, timeout = calls[k + 1]
+    # the confirmation: supervisory PDU with the timeout bit and the value
+    sx.check(sx.all([cmd[3] & 0xE0 == 0x80, cmd[3] & 0x10 == 0x10, sx.eq(cmd[-1], tox)]),
+             "rtox-in-%s:value-not-confirmed" % phase)
+    sx.check(timeout >= tox * rwt - 1e-9, "rtox-in-%s:initiator-waits-less-than-rtox-times-rwt" % phase)
+    sx.reach("rtox-scripted-target:" + phase)
+    return [phase, len(calls)]
+
+
 def partitions(tier):
     quick = tier == "quick"
     parts = []
+    for phase in ("reply", "chain"):
+        parts.append(dict(name="rtox-scripted-target:" + phase, fn="rtox_in_response_chain",
+                          params=dict(phase=phase)))
 
     def conv(name, shapes, faults, tech='106A', brs=0, lri=0, lrt=0, did=None,
              nad=None, **kw):
@@ -500,7 +556,7 @@ def partitions(tier):
     return parts
 
 
-MUST_REACH = ["rtox-requested", "lost-frame-then-corrupted-attention-response", "script:clean", "script:single", "script:multi", "completed:clean",
+MUST_REACH = ["rtox-scripted-target:reply", "rtox-scripted-target:chain", "rtox-requested", "lost-frame-then-corrupted-attention-response", "script:clean", "script:single", "script:multi", "completed:clean",
               "completed:single", "completed:multi", "failed:multi",
               "chaining:initiator", "chaining:target", "pni-wrap",
               "framing:106A", "framing:212F", "framing:424F", "did", "nad",
@@ -542,7 +598,7 @@ BOUNDS = {
     "waiting target before any one of the initiator's requests of a 3-exchange "
     "conversation: target without DID / frame with DID, target with DID / "
     "other DID, target with DID / frame without DID, 0 faults (1 fault for "
-    "the first configuration); one conversation ended by field-off instead of release; one variant with a 77.5 ms deadline (RWT 77.33 ms); added later: a lost frame followed by a corrupted attention response; the target application calls send_timeout_extension() (RTOX 1..12, symbolic) before replies, with one fault",
+    "the first configuration); one conversation ended by field-off instead of release; one variant with a 77.5 ms deadline (RWT 77.33 ms); added later: a lost frame followed by a corrupted attention response; the target application calls send_timeout_extension() (RTOX 1..12, symbolic) before replies, with one fault; a scripted target that requests RTOX (1..59, symbolic) before its reply or inside a two-chunk chained reply (212F, RWT 10 ms, no fault)",
     "thorough": "as quick with <= 3 faults for all 36 length pairs "
     "{1, miu-1, miu, miu+1, 2miu, 2miu+1}^2 of one exchange in both framings, "
     "2..4 exchanges with <= 2 faults (<= 3 for five of them, <= 4 for two "
